@@ -21,7 +21,7 @@ MANIFEST = {
 }
 
 PRESETS = ['default', 'minimal', 'fw-transformers', 'extended', 'verbose', 'extended_rounded']
-BOUNDS = {'quick': {'formula': 1, 'keepdrop': [4, 5], 'union': 2, 'parse': 3}, 'thorough': {'formula': 1, 'keepdrop': [3, 4, 5, 6], 'union': 2, 'parse': 4}}
+BOUNDS = {'quick': {'formula': 1, 'keepdrop': [4, 5], 'union': 2, 'parse': 3}, 'thorough': {'formula': 1, 'keepdrop': [3, 4, 5, 6, 7, 8], 'union': 3, 'parse': 5}}
 INFO = {
     'engine': 'symx + z3 (QF_UFLRA)',
     'explanation': 'formula: exists X in R: expr(X) != ref_name(X) must be unsat for each of the table entries, sqrt/log/round/products uninterpreted.',
@@ -214,7 +214,7 @@ def real_generic():
     return rt
 
 
-TOKENS = ['1.0', '2.0', 'nan']
+TOKENS = ['1.0', '0.0', '-0.0', 'nan']      # '-0.0' and '0.0' are different texts of numerically equal values
 
 
 def keep_expected(col):
